@@ -205,6 +205,62 @@ def hex_bitmap_family(enc):
     return h
 
 
+DE43_ODD = [
+    'A' * 60, 'INTERNATIONALSUPERMARKETHOLDINGS SYDNEYAU', 'NO BACKSLASHES HERE AT ALL, JUST A LONG MERCHANT NAME AND A TOWN 3103 VICAUS',
+    'ACME STORE\\12 HIGH ST\\' + 'Q' * 58 + '\\31 VIC', 'A\\B\\C\\', '\\\\\\\\', ' ' * 99, 'X' * 99, 'WORD ' * 19 + 'END',
+    'ACME STORE\\12 HIGH ST\\MELBOURNE\\3103      VICAUS',
+]
+BIT1_CLEAR = [[], [9], [10, 71], [24], [9, 63], [71], [128 - 1]]
+
+
+def de43_family(enc):
+    """merchant name/location values that do not follow the name\\address\\suburb\\postcode layout (and one that does): decoding returns or
+    raises the library error - within the watchdog (the configured regular expression runs natively)"""
+    def h():
+        iso = M().iso8583
+        v = choose('de43', DE43_ODD)
+        other = choose('other', [None, 49])
+        msg = {'MTI': '1240', 'DE43': v[:99]}
+        if other:
+            msg['DE49'] = '036'
+        data = iso.dumps(dict(msg), encoding=enc)
+        rp = {'kind': 'loads', 'args': {'data': data, 'enc': enc, 'hexbm': False}}
+        core.set_fallback(rp, 'C07/concretised')
+        try:
+            with guard('loads', 'C07/exception', rp, allow=(iso.Iso8583DataError,), hang_key='C07/hang'):
+                try:
+                    native_watchdog(lambda: iso.loads(data, encoding=enc), 3)
+                    res = 'dict'
+                except iso.Iso8583DataError:
+                    res = 'Iso8583DataError'
+        except TimeoutError:
+            fail('loads did not return within 3 s on a DE43 value of %d characters' % len(v[:99]), key='C07/hang', replay=rp)
+        return {'sample': {'DE43': v[:30], 'result': res}, 'replay': rp}
+    return h
+
+
+def bit1_clear_family(enc, hexbm):
+    """incoming bitmaps with the secondary-bitmap flag clear, some with no element at all in the first eight bits"""
+    import binascii as _b
+
+    def h():
+        iso = M().iso8583
+        bits = choose('bits', BIT1_CLEAR)
+        tail = choose('tail', [b'', '12345678'.encode(enc), '000000123456'.encode(enc), 'ABCDEFGHIJ0123456789'.encode(enc)])
+        bm = bitmap_bytes(bits, bit1=False)
+        data = '1240'.encode(enc) + (_b.hexlify(bm) if hexbm else bm) + tail
+        rp = {'kind': 'loads', 'args': {'data': data, 'enc': enc, 'hexbm': hexbm}}
+        core.set_fallback(rp, 'C07/concretised')
+        with guard('loads', 'C07/exception', rp, allow=(iso.Iso8583DataError,), hang_key='C07/hang'):
+            try:
+                iso.loads(data, encoding=enc, hex_bitmap=hexbm)
+                res = 'dict'
+            except iso.Iso8583DataError:
+                res = 'Iso8583DataError'
+        return {'sample': {'bits': bits, 'result': res}, 'replay': rp}
+    return h
+
+
 def hex_prefixes(enc):
     """every prefix (length 0..len) of concrete well-formed hex-bitmap messages"""
     import binascii as _b
@@ -289,5 +345,10 @@ def obligations(tier):
                       'hex bitmap from a concrete family of malformed renderings x three message tails', _funcs))
     for enc in ('latin_1', 'cp500'):
         obs.append(Ob('msg/hex-prefixes/%s' % enc, hex_prefixes(enc), 60, 'every prefix of two concrete hex-bitmap messages', _funcs))
+    for enc in ('latin_1', 'cp500'):
+        obs.append(Ob('msg/de43-family/%s' % enc, de43_family(enc), 120,
+                      'ten merchant name/location values, nine of which do not follow the configured layout (long unbroken runs, no separators, only separators)', _funcs))
+        obs.append(Ob('msg/bit1-clear-family/%s' % enc, bit1_clear_family(enc, enc == 'cp500'), 120,
+                      'bitmaps %s with the secondary-bitmap flag clear x four data tails' % BIT1_CLEAR, _funcs))
     obs.append(Ob('cli/catch-clauses', cli_syntax(), 10, 'AST of the three command line wrappers', lambda: []))
     return obs
